@@ -100,6 +100,18 @@ def rule_view_extent(fb, res, cls, key, ptrf, lenf, hsize, bound_minus=None, rea
                 w, num = (d if lv["op"] == "/" else (1 << d)), lv["l"]
             fn_ = _linear(lenf, num, syms)
             if fn_ is None or fn_.get("L") != 1 or any(c2 for s2, c2 in fn_.items() if s2 not in ("L", 1)):
+                # locals that are constants on this path (an element width chosen by `?:`, a rounding term) stand for their value
+                import copy as _copy
+                num2 = _copy.deepcopy(num)
+                for z in list(walk(num2)):
+                    if z.get("k") == "ref" and z.get("dk") == "local":
+                        cz = path_const(z)
+                        if cz is not None:
+                            t_ = z.get("t")
+                            z.clear()
+                            z.update({"k": "lit", "cv": cz, "t": t_})
+                fn_ = _linear(lenf, num2, syms)
+            if fn_ is None or fn_.get("L") != 1 or any(c2 for s2, c2 in fn_.items() if s2 not in ("L", 1)):
                 raise Broken("%s: element count is not (payload size - constant) / width (`%s`)" % (lenf.name, canon(lv)[:80]))
             c = -fn_.get(1, 0)
             need = 1
